@@ -209,8 +209,12 @@ def run(ctx):
             import re
             m = re.search(r"Some (\d+)", first)
             if m:
-                k = int(m.group(1))
-                if k < len(tr) and tr[k].kind == "Err" and c[2][k] != "SNewUniverse" and c[2][k][0] == "SRelate":
+                # observations are made at relate / both steps only: map the observation index to the step index
+                obs_steps = [i for i, st in enumerate(c[2][:len(tr)]) if st != "SNewUniverse" and st[0] in ("SRelate", "SBoth")]
+                j_obs = int(m.group(1))
+                k = obs_steps[j_obs] if j_obs < len(obs_steps) else len(tr)
+                rep["first_differing_step"] = "observation %d = step %d" % (j_obs, k)
+                if k < len(tr) and tr[k].kind == "Err" and c[2][k][0] == "SRelate":
                     ev = replay_unifier(ctx, c, tr, k)
             if ev:
                 rep.update({"kind": "property", "what": "relate rejects a pair for which a universe-respecting unifier exists: the real table accepts the bindings one by one and then the two sides are equal", "evidence": ev})
